@@ -78,6 +78,9 @@ pub struct Matcher {
     matches: Vec<MatchResult>,
     /// Section 104 pools (remaining after same-day and B&B)
     pools: HashMap<String, Section104Holding>,
+    /// Shares actually held per ticker (acquisitions less disposals, rescaled by splits).
+    /// Differs from the pool while a disposal is matched to a purchase not yet made.
+    held: HashMap<String, Decimal>,
 }
 
 impl Matcher {
@@ -87,6 +90,7 @@ impl Matcher {
             ledgers: HashMap::new(),
             matches: Vec::new(),
             pools: HashMap::new(),
+            held: HashMap::new(),
         }
     }
 
@@ -133,6 +137,7 @@ impl Matcher {
                         )));
                     }
                     let cost_offset = cost_offsets.get(idx).copied().unwrap_or(Decimal::ZERO);
+                    *self.held.entry(tx.ticker.clone()).or_default() += *amount;
                     let ledger = self.ledgers.entry(tx.ticker.clone()).or_default();
                     ledger.add_acquisition(
                         idx,
@@ -450,6 +455,18 @@ impl Matcher {
             )));
         }
 
+        // Shares matched to a later purchase under the 30-day rule stay in the pool
+        // until that purchase arrives, so the pool alone overstates what is held.
+        let held = self.held.entry(tx.ticker.clone()).or_default();
+        if *amount > *held {
+            return Err(CgtError::InvalidTransaction(format!(
+                "SELL {} on {}: disposal of {} shares exceeds holding of {} \
+                 (shares already sold cannot be sold again)",
+                tx.ticker, tx.date, amount, held
+            )));
+        }
+        *held -= *amount;
+
         let mut remaining = *amount;
 
         // 1. Same Day matching
@@ -536,12 +553,20 @@ impl Matcher {
                 if let Some(pool) = self.pools.get_mut(&tx.ticker) {
                     pool.quantity *= *ratio;
                 }
+                if let Some(held) = self.held.get_mut(&tx.ticker) {
+                    *held *= *ratio;
+                }
             }
             Operation::Unsplit { ratio } => {
                 if let Some(pool) = self.pools.get_mut(&tx.ticker)
                     && *ratio != Decimal::ZERO
                 {
                     pool.quantity /= *ratio;
+                }
+                if let Some(held) = self.held.get_mut(&tx.ticker)
+                    && *ratio != Decimal::ZERO
+                {
+                    *held /= *ratio;
                 }
             }
             Operation::Buy { .. }
